@@ -29,6 +29,7 @@ pub const F_REDELIVERY: u32 = 16;
 pub const F_RETAIN_PARTIAL: u32 = 32;
 pub const F_REORDERED: u32 = 64;
 pub const F_CHAIN: u32 = 128;
+pub const F_FAULTED: u32 = 256;
 
 #[derive(Clone, Debug, Default)]
 pub struct RegResult {
@@ -668,7 +669,15 @@ pub fn execute(scn: &RegScenario, mask: Mask) -> Result<RegResult, Violation> {
     universe::uninstall();
     match r {
         Ok(x) => x,
-        Err(msg) => Err(all_props_panic(mask, &["C01", "C02", "C05", "C10", "C11"], msg)),
+        // consumer steps catch their own panics; what arrives here unwound out
+        // of a registration, which the registration properties answer for
+        Err(msg) => match ["C01", "C02", "C05", "C11"].iter().find(|p| mask.has(p)) {
+            Some(_) => Err(all_props_panic(mask, &["C01", "C02", "C05", "C11"], msg)),
+            None => {
+                probe("registration_panicked_under_a_check_that_does_not_answer_for_it");
+                Ok(RegResult::default())
+            }
+        },
     }
 }
 
@@ -686,7 +695,136 @@ pub fn publish_only(scn: &RegScenario) -> Result<PortableRegistry, String> {
     r
 }
 
+/// Apply a request in the fault-injecting configuration: an injected unwind
+/// out of a node's `type_info()` is caught here (the caller of the library
+/// catches it and carries on); any other panic propagates.
+fn apply_catching_unwind(reg: &mut Registry, req: &Req) -> Option<Vec<u32>> {
+    let r = std::panic::catch_unwind(std::panic::AssertUnwindSafe(|| apply(reg, req)));
+    universe::arm(false);
+    match r {
+        Ok(a) => Some(a.pairs.iter().map(|p| p.1).collect()),
+        Err(payload) => {
+            if payload.is::<universe::InjectedUnwind>() {
+                None
+            } else {
+                std::panic::resume_unwind(payload)
+            }
+        }
+    }
+}
+
+/// Fault-injecting configuration of regsim (C11 only): some `type_info()`
+/// calls unwind once in the middle of a registration.  The oracle is relaxed
+/// deliberately and narrowly: the failed registration may leave an id without
+/// a definition (so density, faithfulness and the entry count are not checked
+/// in this configuration), but every entry that was ever observed must stay,
+/// under the same id, unchanged - in every later state and in the published
+/// registry - and replaying the same history with the same faults must give
+/// the same bytes.
+fn execute_faulted(scn: &RegScenario, mask: Mask) -> Result<RegResult, Violation> {
+    let mut res = RegResult {
+        scenario_hash: hash_of(scn),
+        graph_hash: hash_of(&(&scn.nodes, &scn.perm)),
+        order_hash: hash_of(&scn.owner.iter().map(|d| (d.msg, d.dup)).collect::<Vec<_>>()),
+        events: scn.owner.len() as u64,
+        ..Default::default()
+    };
+    universe::reset_counters();
+    universe::plan_unwinds(&scn.unwind_nodes);
+    let mut reg = Registry::new();
+    let mut seen: BTreeMap<u32, Type<PortableForm>> = BTreeMap::new();
+    let mut fired_at: Option<usize> = None;
+    for (e, d) in scn.owner.iter().enumerate() {
+        probe("events.delivery");
+        match apply_catching_unwind(&mut reg, &d.req) {
+            None => {
+                probe("fault.unwind_in_type_info.fired");
+                if fired_at.is_none() {
+                    fired_at = Some(e);
+                }
+                core::log_u64(u64::MAX);
+            }
+            Some(ids) => {
+                for id in ids {
+                    core::log_u64(id as u64);
+                }
+                if fired_at.is_some() {
+                    probe("reach.registration_after_an_unwound_one");
+                }
+            }
+        }
+        let now: BTreeMap<u32, &Type<PortableForm>> = reg.types().map(|(k, t)| (k.id, t)).collect();
+        for (id, old) in &seen {
+            match now.get(id) {
+                None => {
+                    fail(mask, "C11", "fault.prefix.entry_vanished", || {
+                        format!("event {}: entry {} existed and is gone", e, id)
+                    })?;
+                }
+                Some(t) if **t != *old => {
+                    fail(mask, "C11", "fault.prefix.entry_altered", || {
+                        format!(
+                            "event {}: entry {} changed from {:?} to {:?} (an earlier registration had unwound at event {:?})",
+                            e,
+                            id,
+                            PType::from_lib(old),
+                            PType::from_lib(t),
+                            fired_at
+                        )
+                    })?;
+                }
+                Some(_) => {}
+            }
+        }
+        let fresh: Vec<(u32, Type<PortableForm>)> =
+            now.iter().filter(|(id, _)| !seen.contains_key(id)).map(|(id, t)| (*id, (*t).clone())).collect();
+        seen.extend(fresh);
+    }
+    if universe::unwinds_fired() > 0 {
+        res.flags |= F_FAULTED;
+    }
+    let pr: PortableRegistry = reg.into();
+    for (id, old) in &seen {
+        match pr.types.iter().find(|t| t.id == *id) {
+            Some(t) if t.ty == *old => {}
+            _ => {
+                fail(mask, "C11", "fault.publication_lost_or_altered_entry", || {
+                    format!("entry {} was observed in the registry but is not published unchanged", id)
+                })?;
+            }
+        }
+    }
+    let bytes = pr.encode();
+    core::log_bytes(&bytes);
+    // replay with the same faults
+    universe::reset_counters();
+    universe::plan_unwinds(&scn.unwind_nodes);
+    let mut reg = Registry::new();
+    for d in &scn.owner {
+        let _ = apply_catching_unwind(&mut reg, &d.req);
+    }
+    if PortableRegistry::from(reg).encode() != bytes {
+        fail(mask, "C11", "fault.replay_not_byte_identical", || {
+            "replaying the history with the same injected unwinds gave different bytes".to_string()
+        })?;
+    }
+    universe::plan_unwinds(&[]);
+    probe("checks.fault_injecting_configuration");
+    res.entries = pr.types.len() as u64;
+    if !pr.types.is_empty() {
+        res.flags |= F_NONEMPTY;
+    }
+    if scn.owner.len() >= 2 {
+        res.flags |= F_MULTI_EVENT;
+    }
+    res.log_hash = core::log_value();
+    Ok(res)
+}
+
 fn execute_inner(scn: &RegScenario, mask: Mask) -> Result<RegResult, Violation> {
+    if !scn.unwind_nodes.is_empty() && mask.has("C11") {
+        return execute_faulted(scn, mask);
+    }
     let mut res = RegResult {
         scenario_hash: hash_of(scn),
         graph_hash: hash_of(&(&scn.nodes, &scn.perm)),
@@ -806,12 +944,53 @@ fn execute_inner(scn: &RegScenario, mask: Mask) -> Result<RegResult, Violation> 
     let mut cur = a.pr;
     for (k, step) in scn.chain.iter().enumerate() {
         res.flags |= F_CHAIN;
+        // a panic inside a consumer step belongs to the property that speaks
+        // about that step; for the others the chain simply ends here
+        let responsible: &[&'static str] = match step {
+            ChainStep::Retain(_) => &["C10"],
+            ChainStep::ScaleRoundTrip => &["C07", "C14"],
+            ChainStep::JsonRoundTrip => &["C14"],
+            ChainStep::BuilderRebuild => &["C12"],
+        };
+        let step_result = core::catch(|| -> Check { chain_step(mask, k, step, &mut cur, &mut res) });
+        match step_result {
+            Ok(r) => r?,
+            Err(msg) => {
+                for p in responsible {
+                    fail(mask, p, &core::panic_clause(&msg), || {
+                        format!("consumer step {} ({:?}) panicked: {}", k, step_name(step), msg)
+                    })?;
+                }
+                probe("chain.ended_by_a_panic_another_property_answers_for");
+                break;
+            }
+        }
+    }
+    core::log_bytes(&cur.encode());
+    res.after_chain = Some(cur);
+    res.log_hash = core::log_value();
+    Ok(res)
+}
+
+fn step_name(s: &ChainStep) -> &'static str {
+    match s {
+        ChainStep::Retain(_) => "retain",
+        ChainStep::ScaleRoundTrip => "scale round trip",
+        ChainStep::JsonRoundTrip => "json round trip",
+        ChainStep::BuilderRebuild => "builder rebuild",
+    }
+}
+
+fn chain_step(mask: Mask, k: usize, step: &ChainStep, cur_ref: &mut PortableRegistry, res: &mut RegResult) -> Check {
+    // work on a copy; commit on success (a step may replace the registry)
+    let mut cur = cur_ref.clone();
+    {
         match step {
             ChainStep::Retain(keep) => {
                 let before = PReg::from_lib(&cur);
                 if !before.well_formed() {
                     probe("chain.retain_skipped_ill_formed_input");
-                    continue;
+                    return Ok(());
                 }
                 let len = before.len();
                 let accepted: Vec<u32> =
@@ -889,7 +1068,7 @@ fn execute_inner(scn: &RegScenario, mask: Mask) -> Result<RegResult, Violation> 
                 let distinct: BTreeSet<&PType> = before.types.iter().map(|x| &x.1).collect();
                 if distinct.len() != before.len() || !before.well_formed() {
                     probe("chain.builder_rebuild_skipped_equal_entries");
-                    continue;
+                    return Ok(());
                 }
                 let mut b = PortableRegistryBuilder::new();
                 for t in &cur.types {
@@ -908,19 +1087,14 @@ fn execute_inner(scn: &RegScenario, mask: Mask) -> Result<RegResult, Violation> 
                     fail(mask, "C12", "rebuild.finish_lists_values", || {
                         "finish() differs from the registered values".to_string()
                     })?;
-                    fail(mask, "C01", "builder_finish.fabricated", || {
-                        "finish() differs from the registered values".to_string()
-                    })?;
                 }
                 cur = out;
                 probe("chain.builder_rebuild");
             }
         }
     }
-    core::log_bytes(&cur.encode());
-    res.after_chain = Some(cur);
-    res.log_hash = core::log_value();
-    Ok(res)
+    *cur_ref = cur;
+    Ok(())
 }
 
 /// C11.3: owner and replica received the same messages in different orders;
